@@ -1,5 +1,6 @@
 // Engine A — object-history simulator: shared declarations.
 #pragma once
+#include <exception>
 #include <functional>
 #include "../simrt/simrt.h"
 #include "kinds.h"
@@ -33,6 +34,7 @@ struct Op {
     uint8_t fault = F_NONE;
     uint32_t fa = 0;          // F_ALLOC: index (1-based) of the SUT allocation of this op that fails
     uint32_t fc = 0;          // F_CORRUPT: (corruption kind) | (position selector << 8)
+    uint8_t uw = 0;           // 1: the step is executed from a destructor while another exception is propagating (std::uncaught_exceptions() > 0)
     uint8_t thr = 0;          // who executes the step: 0 the main thread, 1-2 one of the long-lived helper threads (handed over and joined: properly synchronised)
 };
 
@@ -134,7 +136,7 @@ enum Probe {
     PR_RESULT_EQUALS_SOURCE, PR_SELF_REFERENTIAL, PR_SOURCE_MUTATED_AFTER_DERIVE, PR_RESULT_DESTROYED_BEFORE_SOURCE,
     PR_THROW_WITH_HEAP_TARGET, PR_THROW_WITH_HEAP_RVALUE, PR_THROW_THEN_REUSED,
     PR_FAULT_ALLOCATE_AFTER_RELEASE, PR_FAULT_VECTOR_GROWTH, PR_FAULT_EXCEPTION_CTOR, PR_FAULT_TARGET_EMPTY_AFTER, PR_FAULT_TARGET_OLD_AFTER,
-    PR_FAULT_STREAM_GROWTH, PR_FAULT_STD_FUNCTION, PR_SS_TOPPED_UP, PR_RETAINED_BY_STATIC, PR_STEP_ON_HELPER_THREAD, PR_RETRY_AFTER_BAD_ALLOC,
+    PR_FAULT_STREAM_GROWTH, PR_FAULT_STD_FUNCTION, PR_SS_TOPPED_UP, PR_RETAINED_BY_STATIC, PR_STEP_ON_HELPER_THREAD, PR_RETRY_AFTER_BAD_ALLOC, PR_STEP_DURING_UNWINDING,
     PR__COUNT
 };
 const char *probe_name(int i);
@@ -217,6 +219,16 @@ uint64_t op_budget(const Ctx &c);
 // history stays a sequence - but whatever the library keeps per thread (thread_local scratch, memos keyed by an object's address) now sees
 // objects that other threads have changed in between.  core.cpp: on_helper().
 void on_helper(int k, const std::function<void()> &fn);
+// The surroundings of a step: a scope guard that reports, cleans up or converts through the library does so from its destructor while the
+// exception that ended the scope is still propagating.  Nothing the library does may depend on that (a commit-unless-unwinding test that asks
+// "is any exception in flight" instead of "did this call fail" does).  The step's own exception is carried out and rethrown afterwards.
+struct UnwindProbe { };
+template <class F> inline void during_unwinding(F &f) {
+    std::exception_ptr own;
+    struct Guard { F &f; std::exception_ptr &own; ~Guard() { try { f(); } catch (...) { own = std::current_exception(); } } };
+    try { Guard g{f, own}; throw UnwindProbe(); } catch (const UnwindProbe &) { }
+    if (own) std::rethrow_exception(own);
+}
 template <class F> ExcKind run_sut(Ctx &c, const Op &op, F &&f) {
     c.returned_ref = nullptr;
     ExcKind ex = EX_NONE; uint64_t used = 0; bool fired = false; uint32_t allocs = 0;
@@ -225,7 +237,7 @@ template <class F> ExcKind run_sut(Ctx &c, const Op &op, F &&f) {
         simrt::clock_arm(op_budget(c));
         {
             simrt::SutScope sut;
-            try { f(); }
+            try { if (op.uw) during_unwinding(f); else f(); }
             catch (const std::bad_alloc &) { ex = EX_BAD_ALLOC; }
             catch (const ST::unicode_error &) { ex = EX_UNICODE; }
             catch (const ST::codec_error &) { ex = EX_CODEC; }
@@ -238,6 +250,7 @@ template <class F> ExcKind run_sut(Ctx &c, const Op &op, F &&f) {
         simrt::heap_op_end();
         fired = simrt::heap_fault_fired(); allocs = simrt::heap_op_allocs();
     };
+    if (op.uw) { if (c.stats) c.stats->probe[PR_STEP_DURING_UNWINDING]++; c.run_probe[PR_STEP_DURING_UNWINDING] = true; }
     if (op.thr) { on_helper(op.thr, body); if (c.stats) c.stats->probe[PR_STEP_ON_HELPER_THREAD]++; c.run_probe[PR_STEP_ON_HELPER_THREAD] = true; }
     else body();
     c.fired = fired;
